@@ -79,6 +79,9 @@ Inductive action :=
 | InnerAccess (f : name) (k : N)     (* f.inner() / inner_mut() / inner_pin_ref() / inner_pin_mut() (k = 0..3): no enter *)
 | SpanMutSwap (f n : name)           (* mem::swap(f.span_mut(), &mut n) *)
 | CloneFut (f n : name)              (* n = f.clone()   (derive(Clone) for Instrumented / WithDispatch) *)
+| CloneDrop (r n : name)             (* drop(r.clone()) with method syntax on the holder itself: on an EnteredSpan guard `.clone()`
+                                        auto-derefs to Span::clone and yields a plain Span (n: a scratch name, dead before and after) *)
+| CloneFrom (a b n : name)           (* a.clone_from(&b)  (also through Box / Option / Vec ::clone_from; n: scratch name) *)
 | PollBegin (f : name)               (* Pin::new(&mut f).poll(cx) { ... *)
 | PollEnd (res : pollres)            (*   ... } *)
 | IntoInner (f : name)               (* drop(f.into_inner()) *)
@@ -281,6 +284,11 @@ Definition compile (o : own) (t : tid) (a : action) : option (list micro) :=
       | Some KHandle | None => None
       | Some k => if readable o f && negb (live o n) then Some [MCloneTo f n t; MSetKind n k; MCopyDisp f n] else None
       end
+  | CloneDrop r n => if readable o r && negb (live o n) then Some [MCloneTo r n t; MRelease n t] else None
+  | CloneFrom a b n =>
+      (* the provided Clone::clone_from: `*self = source.clone()` — clone first, then the old value is dropped *)
+      if is_handle o a && free o a && readable o b && negb (a =? b) && negb (live o n)
+      then Some [MCloneTo b n t; MSwap a n; MRelease n t] else None
   | SetDefault c => if in_wd_poll o t then None else Some [MPushDefault t c]
   | CloseScope => if in_wd_poll o t then None else Some [MPopDefault t]
   end.
@@ -501,7 +509,8 @@ Definition enc_entry (ex : entry * (sid * sid)) : N * N * N * N * N * N :=
   | EMark t (MInnerTouch f) => (0, t, 10, f, 0, 0)
   end.
 Definition produced (a : action) : option name :=
-  match a with New n _ _ | Clone _ n | Current n | OrCurrent n | ExitOwned n | CloneFut _ n | SpanMutSwap _ n => Some n
+  match a with New n _ _ | Clone _ n | Current n | OrCurrent n | ExitOwned n | CloneFut _ n | SpanMutSwap _ n
+  | CloneFrom n _ _ => Some n
   | _ => None end.
 Definition enc_id (v : sval) : N := match id_of_val v with Some i => i + 1 | None => 0 end.
 Definition enc_shown (d : dyn) (n : name) : N := match val_of d n with SNone => 0 | _ => hid_of d n + 1 end.
